@@ -28,7 +28,12 @@ Inductive case :=
    are written; observed: every header that is not the transport's own and every query parameter the server receives *)
 | CDefaultX (op def : option writer) (preh preq : list (bytes * bytes)) (hdrs qry : obs_map)
 (* several requests built one after the other on ONE Runtime, DefaultAuthentication being reassigned between them *)
-| CDefaultHist (steps : list hist_step).
+| CDefaultHist (steps : list hist_step)
+(* a server authenticator of a declared kind (and key name) on a request that carries names and tokens in every place:
+   headers (a Cookie header among them), query parameters, form fields (formct: the body is a form a server parses);
+   observed: applies, what the callback received (token paired with an empty second component), principal/error are the callback's *)
+| CCross (k : cred_kind) (name : bytes) (hdrs : list (bytes * bytes)) (qry form : list (bytes * list bytes)) (formct : bool)
+         (applies : bool) (got : option (bytes * bytes)) (pok : bool).
 
 Definition empty_req : request := mkReq [] [] false [].
 Definition pair_eqb (a b : bytes * bytes) : bool := bytes_eqb (fst a) (fst b) && bytes_eqb (snd a) (snd b).
@@ -83,4 +88,9 @@ Definition check_case (c : case) : N :=
                                (h_stable s && wire_match (h_hdrs s) (h_qry s) (build_request (h_op s, h_def s, q0 s)))) steps)
             (forallb (fun s => negb (h_sent s) ||
                                (h_stable s && wire_match (h_hdrs s) (h_qry s) (expected_request (h_op s) (h_def s) (q0 s)))) steps)
+  | CCross k name hdrs qry form formct applies got pok =>
+    let q := mkReq (map (fun kv => (lower (fst kv), snd kv)) hdrs) qry formct form in
+    let m := read_cred k name q in
+    verdict (Bool.eqb applies (is_some m) && opt_eqb pair_eqb got m)
+            (pok && from_declared_location k name q applies got)
   end.
